@@ -959,7 +959,25 @@ fn exec_case(case: &Case) -> Exec {
     let mut ex = Exec::new();
     for l in &case.lines {
         let t0 = Instant::now();
-        let out = exec_line(l, &mut ex);
+        // a panic of compio inside `block_on` must not take the worker thread down
+        let out = match hx_common::catch(|| exec_line(l, &mut ex)) {
+            Ok(o) => o,
+            Err(msg) => {
+                let pid = slot().pid.swap(0, Ordering::SeqCst);
+                if pid != 0 {
+                    unsafe { libc::kill(-pid, libc::SIGKILL) };
+                }
+                slot().t0_ms.store(0, Ordering::SeqCst);
+                RTS.with(|r| {
+                    // the runtime was unwound through: do not reuse it (and do not run its destructor twice)
+                    for rt in r.borrow_mut().drain(..) {
+                        std::mem::forget(rt);
+                    }
+                });
+                ex.fail("C20:panic", format!("{l}: {msg}"));
+                "panic".to_string()
+            }
+        };
         if std::env::var("C20_TIMES").is_ok() {
             eprintln!("{:>6} ms  {}", t0.elapsed().as_millis(), l);
         }
